@@ -270,3 +270,489 @@ Check lex_upper_bound_walk :
     li_walk (length l) l (snd (li_seek_upper_bound l t)) =
     filter (fun s => match lex s t with Gt => true | _ => false end) l.
 Print Assumptions lex_upper_bound_walk.
+
+(* ======================= extension: FastStr, word-boundary helpers, LineProcessor configurations ======================= *)
+From ZV.C20 Require Import ModelFast ModelText CasesX ProofsFast ProofsFastHash ProofsText.
+Open Scope N_scope.
+
+(* FastStr::find (empty needle, needle longer than the text, single-byte dispatch, window loop) returns exactly the
+   first occurrence, None exactly when there is none; overlapping occurrences included *)
+Theorem fs_find_first_occurrence :
+  forall h n,
+    (forall i, fs_find h n = Some i <-> (occurs_at h n i /\ forall j, occurs_at h n j -> (i <= j)%nat)) /\
+    (fs_find h n = None <-> forall j, ~ occurs_at h n j).
+Proof. exact fs_find_iff_proof. Qed.
+Check fs_find_first_occurrence :
+  forall h n,
+    (forall i, fs_find h n = Some i <-> (occurs_at h n i /\ forall j, occurs_at h n j -> (i <= j)%nat)) /\
+    (fs_find h n = None <-> forall j, ~ occurs_at h n j).
+Print Assumptions fs_find_first_occurrence.
+
+(* find_byte / find_byte_optimized: the first position of the byte *)
+Theorem fs_find_byte_first :
+  forall c h i, find_byte c h = Some i ->
+    occurs_at h [c] i /\ forall j, (j < i)%nat -> ~ occurs_at h [c] j.
+Proof. exact (fun c h i H => find_byte_first c h i H). Qed.
+Check fs_find_byte_first :
+  forall c h i, find_byte c h = Some i ->
+    occurs_at h [c] i /\ forall j, (j < i)%nat -> ~ occurs_at h [c] j.
+Print Assumptions fs_find_byte_first.
+
+(* starts_with = being a prefix *)
+Theorem fs_starts_with_spec :
+  forall s p, fs_starts_with s p = true <-> exists r, s = p ++ r.
+Proof. exact fs_starts_with_proof. Qed.
+Check fs_starts_with_spec :
+  forall s p, fs_starts_with s p = true <-> exists r, s = p ++ r.
+Print Assumptions fs_starts_with_spec.
+
+(* ends_with = being a suffix *)
+Theorem fs_ends_with_spec :
+  forall s p, fs_ends_with s p = true <-> exists r, s = r ++ p.
+Proof. exact fs_ends_with_proof. Qed.
+Check fs_ends_with_spec :
+  forall s p, fs_ends_with s p = true <-> exists r, s = r ++ p.
+Print Assumptions fs_ends_with_spec.
+
+(* starts_with agrees with find *)
+Theorem fs_starts_with_is_find_0 :
+  forall s p, fs_starts_with s p = true <-> fs_find s p = Some O.
+Proof. exact fs_starts_with_find_proof. Qed.
+Check fs_starts_with_is_find_0 :
+  forall s p, fs_starts_with s p = true <-> fs_find s p = Some O.
+Print Assumptions fs_starts_with_is_find_0.
+
+(* common_prefix_len is the length of the longest common prefix, and compare is decided by the unsigned bytes right
+   after it (a missing byte sorts first): lexicographic order by unsigned byte *)
+Theorem fs_cmp_by_common_prefix :
+  forall a b,
+    let k := fs_common_prefix_len a b in
+    firstn k a = firstn k b /\ (k <= length a)%nat /\ (k <= length b)%nat /\
+    (forall x y, nth_error a k = Some x -> nth_error b k = Some y -> x <> y) /\
+    fs_compare a b = cmp_at a b k.
+Proof. exact fs_cmp_by_common_prefix_proof. Qed.
+Check fs_cmp_by_common_prefix :
+  forall a b,
+    let k := fs_common_prefix_len a b in
+    firstn k a = firstn k b /\ (k <= length a)%nat /\ (k <= length b)%nat /\
+    (forall x y, nth_error a k = Some x -> nth_error b k = Some y -> x <> y) /\
+    fs_compare a b = cmp_at a b k.
+Print Assumptions fs_cmp_by_common_prefix.
+
+(* compare is a total order consistent with ==, and a prefix never sorts after the string *)
+Theorem fs_cmp_total_order :
+  (forall a, fs_compare a a = Eq) /\
+  (forall a b, fs_compare a b = Eq <-> a = b) /\
+  (forall a b, fs_eq a b = true <-> a = b) /\
+  (forall a b, fs_compare b a = CompOpp (fs_compare a b)) /\
+  (forall a b c, fs_compare a b = Lt -> fs_compare b c = Lt -> fs_compare a c = Lt) /\
+  (forall a b c, fs_compare a b <> Gt -> fs_compare b c <> Gt -> fs_compare a c <> Gt) /\
+  (forall s p, fs_starts_with s p = true -> fs_compare p s <> Gt).
+Proof. exact fs_cmp_total_order_proof. Qed.
+Check fs_cmp_total_order :
+  (forall a, fs_compare a a = Eq) /\
+  (forall a b, fs_compare a b = Eq <-> a = b) /\
+  (forall a b, fs_eq a b = true <-> a = b) /\
+  (forall a b, fs_compare b a = CompOpp (fs_compare a b)) /\
+  (forall a b c, fs_compare a b = Lt -> fs_compare b c = Lt -> fs_compare a c = Lt) /\
+  (forall a b c, fs_compare a b <> Gt -> fs_compare b c <> Gt -> fs_compare a c <> Gt) /\
+  (forall s p, fs_starts_with s p = true -> fs_compare p s <> Gt).
+Print Assumptions fs_cmp_total_order.
+
+(* prefix / substring_from / suffix never panic, clamp at the length, and prefix(k) ++ substring_from(k) is the string *)
+Theorem fs_slicing :
+  forall (s : bytes) (k : N),
+    let m := N.to_nat (N.min k (nlen s)) in
+    fs_prefix s k = Some (firstn m s) /\
+    fs_substring_from s k = Some (skipn m s) /\
+    fs_suffix s k = Some (skipn (length s - m) s) /\
+    firstn m s ++ skipn m s = s /\ length (firstn m s) = m /\ length (skipn (length s - m) s) = m.
+Proof. exact fs_slicing_proof. Qed.
+Check fs_slicing :
+  forall (s : bytes) (k : N),
+    let m := N.to_nat (N.min k (nlen s)) in
+    fs_prefix s k = Some (firstn m s) /\
+    fs_substring_from s k = Some (skipn m s) /\
+    fs_suffix s k = Some (skipn (length s - m) s) /\
+    firstn m s ++ skipn m s = s /\ length (firstn m s) = m /\ length (skipn (length s - m) s) = m.
+Print Assumptions fs_slicing.
+
+(* substring(start, len) with the saturating addition: the bytes from start, at most len of them; panics exactly when start > len() *)
+Theorem fs_substring_spec :
+  forall (s : bytes) (a l : N), nlen s <= USIZE_MAX ->
+    fs_substring s a l =
+    if a <=? nlen s then Some (firstn (N.to_nat (N.min l (nlen s - a))) (skipn (N.to_nat a) s)) else None.
+Proof. exact fs_substring_proof. Qed.
+Check fs_substring_spec :
+  forall (s : bytes) (a l : N), nlen s <= USIZE_MAX ->
+    fs_substring s a l =
+    if a <=? nlen s then Some (firstn (N.to_nat (N.min l (nlen s - a))) (skipn (N.to_nat a) s)) else None.
+Print Assumptions fs_substring_spec.
+
+(* the AVX2 (32-byte chunks, four lanes), SSE2 (16-byte chunks, two lanes) and portable (8-byte chunks) hash paths compute
+   the same function, for every length *)
+Theorem fs_hash_paths_agree :
+  forall s, hash_avx2 s = hash_fallback s /\ hash_sse2 s = hash_fallback s /\ hash_fast s = hash_fallback s.
+Proof. exact hash_paths_agree_proof. Qed.
+Check fs_hash_paths_agree :
+  forall s, hash_avx2 s = hash_fallback s /\ hash_sse2 s = hash_fallback s /\ hash_fast s = hash_fallback s.
+Print Assumptions fs_hash_paths_agree.
+
+(* equal strings hash equally and compare Equal *)
+Theorem fs_eq_hash_coherent :
+  forall a b, fs_eq a b = true -> hash_fast a = hash_fast b /\ fs_compare a b = Eq /\ fs_compare b a = Eq.
+Proof. exact eq_hash_coherent_proof. Qed.
+Check fs_eq_hash_coherent :
+  forall a b, fs_eq a b = true -> hash_fast a = hash_fast b /\ fs_compare a b = Eq /\ fs_compare b a = Eq.
+Print Assumptions fs_eq_hash_coherent.
+
+(* find_word_boundaries lists exactly the positions 0..=len that is_word_boundary accepts, ascending, each once *)
+Theorem find_word_boundaries_spec :
+  forall s, find_word_boundaries s = filter (is_word_boundary s) (seq 0 (S (length s))).
+Proof. exact find_word_boundaries_proof. Qed.
+Check find_word_boundaries_spec :
+  forall s, find_word_boundaries s = filter (is_word_boundary s) (seq 0 (S (length s))).
+Print Assumptions find_word_boundaries_spec.
+
+(* word_at_position returns the maximal run of word bytes around the position, None exactly outside a word *)
+Theorem word_at_position_maximal :
+  forall s pos,
+    match word_at_position s pos with
+    | Some (a, b) =>
+        (a <= pos < b)%nat /\ (b <= length s)%nat /\
+        (forall i, (a <= i < b)%nat -> is_word_char (byte_at s i) = true) /\
+        (a = O \/ is_word_char (byte_at s (a - 1)) = false) /\
+        (b = length s \/ is_word_char (byte_at s b) = false)
+    | None => (length s <= pos)%nat \/ is_word_char (byte_at s pos) = false
+    end.
+Proof. exact word_at_position_proof. Qed.
+Check word_at_position_maximal :
+  forall s pos,
+    match word_at_position s pos with
+    | Some (a, b) =>
+        (a <= pos < b)%nat /\ (b <= length s)%nat /\
+        (forall i, (a <= i < b)%nat -> is_word_char (byte_at s i) = true) /\
+        (a = O \/ is_word_char (byte_at s (a - 1)) = false) /\
+        (b = length s \/ is_word_char (byte_at s b) = false)
+    | None => (length s <= pos)%nat \/ is_word_char (byte_at s pos) = false
+    end.
+Print Assumptions word_at_position_maximal.
+
+(* every LineProcessor configuration (any trimming function) = per-line post-processing and filtering of the raw pieces *)
+Theorem lines_cfg_decompose :
+  forall trim cfg s,
+    process_lines trim cfg s =
+    filter (fun line => negb (lp_skipped cfg line)) (map (lp_line trim cfg) (process_lines trim cfg_keep s)).
+Proof. exact lines_cfg_decompose_proof. Qed.
+Check lines_cfg_decompose :
+  forall trim cfg s,
+    process_lines trim cfg s =
+    filter (fun line => negb (lp_skipped cfg line)) (map (lp_line trim cfg) (process_lines trim cfg_keep s)).
+Print Assumptions lines_cfg_decompose.
+
+(* with the endings preserved the delivered pieces concatenate to the input; every piece ends at the first newline, only
+   the last may be unterminated (and is then non-empty) *)
+Theorem lines_keep_concat :
+  forall trim s,
+    concat (process_lines trim cfg_keep s) = s /\ pieces_ok (process_lines trim cfg_keep s).
+Proof. exact lines_keep_concat_proof. Qed.
+Check lines_keep_concat :
+  forall trim s,
+    concat (process_lines trim cfg_keep s) = s /\ pieces_ok (process_lines trim cfg_keep s).
+Print Assumptions lines_keep_concat.
+
+(* count_lines = number of lines process_lines delivers, in every configuration *)
+Theorem count_lines_is_length :
+  forall trim cfg s, count_lines trim cfg s = nlen (process_lines trim cfg s).
+Proof. exact count_lines_is_length_proof. Qed.
+Check count_lines_is_length :
+  forall trim cfg s, count_lines trim cfg s = nlen (process_lines trim cfg s).
+Print Assumptions count_lines_is_length.
+
+(* process_batches hands over exactly the lines of process_lines, in order, in full batches plus one non-empty partial
+   batch at the end, and returns their number (batch size 0 behaves as 1) *)
+Theorem batches_spec :
+  forall trim cfg bsz s,
+    let '(bs, t) := process_batches trim cfg bsz s in
+    concat bs = process_lines trim cfg s /\ t = nlen (process_lines trim cfg s) /\ batches_ok (Nat.max bsz 1) bs.
+Proof. exact batches_proof. Qed.
+Check batches_spec :
+  forall trim cfg bsz s,
+    let '(bs, t) := process_batches trim cfg bsz s in
+    concat bs = process_lines trim cfg s /\ t = nlen (process_lines trim cfg s) /\ batches_ok (Nat.max bsz 1) bs.
+Print Assumptions batches_spec.
+
+(* the default configuration is the model the line theorem lines_unlines is about *)
+Theorem lines_default_is_lines :
+  forall trim s, process_lines trim cfg_default s = lines s.
+Proof. exact lines_default_proof. Qed.
+Check lines_default_is_lines :
+  forall trim s, process_lines trim cfg_default s = lines s.
+Print Assumptions lines_default_is_lines.
+
+(* non-trivial instances *)
+Example fast_nontrivial :
+  fs_find [1; 2; 1; 2; 1; 3] [1; 2; 1; 3] = Some 2%nat /\ fs_find [97; 97; 97] [97; 97] = Some O /\
+  fs_find [1; 2] [] = Some O /\ fs_find [1; 2; 3] [3; 4] = None /\
+  fs_common_prefix_len [104; 101; 108; 108] [104; 101; 108; 112] = 3%nat /\
+  fs_compare [115] [243] = Lt /\ fs_compare [1; 2] [1; 2; 0] = Lt /\
+  fs_substring [1; 2; 3; 4] 1 USIZE_MAX = Some [2; 3; 4] /\ fs_substring [1; 2] 3 0 = None /\
+  fs_suffix [1; 2; 3] 2 = Some [2; 3] /\
+  hash_avx2 demo_bytes = hash_fallback demo_bytes /\ hash_avx2 demo_bytes <> hash_avx2 (removelast demo_bytes) /\
+  nlen demo_bytes = 75.
+Proof. vm_compute. repeat split; try reflexivity; discriminate. Qed.
+Example text_nontrivial :
+  find_word_boundaries [104; 105; 32; 32; 120; 95; 49; 33] = [0; 2; 4; 7; 8]%nat /\
+  word_at_position [104; 105; 32; 32; 120; 95; 49; 33] 5 = Some (4, 7)%nat /\
+  process_lines utf8_trim (cfg_of_bits 3) [32; 97; 32; 13; 10; 194; 160; 10; 98] = [[97]; [98]] /\
+  process_lines utf8_trim cfg_keep [97; 13; 10; 10; 98] = [[97; 13; 10]; [10]; [98]] /\
+  process_batches utf8_trim cfg_default 2 [97; 10; 98; 10; 99; 10] = ([[[97]; [98]]; [[99]]], 3) /\
+  count_lines utf8_trim (cfg_of_bits 1) [10; 97; 10; 10] = 1.
+Proof. vm_compute. repeat split; reflexivity. Qed.
+
+(* ======================= extension: unicode.rs ======================= *)
+From ZV.C20 Require Import ModelUtf8 ProofsUtf8 ProofsUtf8Enc.
+Open Scope N_scope.
+
+(* on every valid UTF-8 text: next_char from the start yields exactly the characters of chars(), each once, in order, and stops
+   at the end; prev_char from the end yields them in reverse and stops at 0 (the backward scan over continuation bytes lands
+   on every character start); the count is the number of characters *)
+Theorem utf8_walks :
+  forall s cs, chars s = Some cs ->
+    walk_fwd (S (length s)) s {| u_pos := O; u_cur := None |} = (map fst cs, {| u_pos := length s; u_cur := None |}) /\
+    (forall cur, walk_bwd (S (length s)) s {| u_pos := length s; u_cur := cur |} =
+                 (rev (map fst cs), {| u_pos := O; u_cur := None |})) /\
+    validate_count s = Some (nlen cs) /\ (length cs <= length s)%nat.
+Proof. exact utf8_walks_proof. Qed.
+Check utf8_walks :
+  forall s cs, chars s = Some cs ->
+    walk_fwd (S (length s)) s {| u_pos := O; u_cur := None |} = (map fst cs, {| u_pos := length s; u_cur := None |}) /\
+    (forall cur, walk_bwd (S (length s)) s {| u_pos := length s; u_cur := cur |} =
+                 (rev (map fst cs), {| u_pos := O; u_cur := None |})) /\
+    validate_count s = Some (nlen cs) /\ (length cs <= length s)%nat.
+Print Assumptions utf8_walks.
+
+(* every list of Unicode scalar values (1- to 4-byte forms, no surrogates): its encoding is accepted, counted, and enumerated
+   exactly, forward and backward *)
+Theorem utf8_roundtrip :
+  forall cs, forallb is_scalar cs = true ->
+    let s := encode_all cs in
+    chars s = Some (enc_chars cs) /\ validate_count s = Some (nlen cs) /\
+    fst (walk_fwd (S (length s)) s {| u_pos := O; u_cur := None |}) = cs /\
+    (forall cur, fst (walk_bwd (S (length s)) s {| u_pos := length s; u_cur := cur |}) = rev cs).
+Proof. exact utf8_roundtrip_proof. Qed.
+Check utf8_roundtrip :
+  forall cs, forallb is_scalar cs = true ->
+    let s := encode_all cs in
+    chars s = Some (enc_chars cs) /\ validate_count s = Some (nlen cs) /\
+    fst (walk_fwd (S (length s)) s {| u_pos := O; u_cur := None |}) = cs /\
+    (forall cur, fst (walk_bwd (S (length s)) s {| u_pos := length s; u_cur := cur |}) = rev cs).
+Print Assumptions utf8_roundtrip.
+
+Example utf8_nontrivial :
+  forallb is_scalar [97; 233; 8364; 128512; 55295; 57344; 1114111; 0; 127; 128; 2047; 2048; 65535; 65536] = true /\
+  encode_all [97; 233; 8364; 128512] = [97; 195; 169; 226; 130; 172; 240; 159; 152; 128] /\
+  chars [237; 160; 128] = None /\ chars [192; 128] = None /\ chars [244; 144; 128; 128] = None /\ chars [226; 130] = None /\
+  u8_run [97; 195; 169] {| u_pos := O; u_cur := None |} [0; 0; 0; 1; 1; 1; 0; 2] =
+    [(Some 97, Some 97, 1); (Some 233, Some 233, 3); (None, None, 3); (Some 233, Some 233, 1);
+     (Some 97, Some 97, 0); (None, None, 0); (Some 97, Some 97, 1); (None, None, 0)].
+Proof. vm_compute. repeat split; reflexivity. Qed.
+
+(* ======================= extension: StreamingLexIterator ======================= *)
+From ZV.C20 Require Import ModelStream ProofsStream.
+Open Scope N_scope.
+
+(* StreamingLexIterator: next() until it answers false delivers through current() exactly the lines of the stream (the
+   same lines as LineProcessor's default configuration: an empty line is a string, never None), then is_at_end and current() = None *)
+Theorem streaming_enumerates :
+  forall s,
+    let '(cs, e) := sl_walk (S (length s)) (sl_new s) in
+    cs = map Some (lines s) /\ sl_fin e = true /\ sl_current e = None.
+Proof. exact streaming_enumerates_proof. Qed.
+Check streaming_enumerates :
+  forall s,
+    let '(cs, e) := sl_walk (S (length s)) (sl_new s) in
+    cs = map Some (lines s) /\ sl_fin e = true /\ sl_current e = None.
+Print Assumptions streaming_enumerates.
+
+(* a list of strings written one per line with any mix of "\n" / "\r\n" (empty strings, duplicates, last terminator
+   optional) is enumerated exactly: nothing skipped, nothing repeated *)
+Theorem streaming_unlines :
+  forall ls tail,
+    Forall (fun p => contains_byte 10 (fst p) = false /\ ends_with_byte (fst p) 13 = false /\
+                     (snd p = [10] \/ snd p = [13; 10])) ls ->
+    contains_byte 10 tail = false ->
+    fst (sl_walk (S (length (unlines ls ++ tail))) (sl_new (unlines ls ++ tail))) =
+    map Some (map fst ls ++ (if null tail then [] else [tail])).
+Proof. exact streaming_unlines_proof. Qed.
+Check streaming_unlines :
+  forall ls tail,
+    Forall (fun p => contains_byte 10 (fst p) = false /\ ends_with_byte (fst p) 13 = false /\
+                     (snd p = [10] \/ snd p = [13; 10])) ls ->
+    contains_byte 10 tail = false ->
+    fst (sl_walk (S (length (unlines ls ++ tail))) (sl_new (unlines ls ++ tail))) =
+    map Some (map fst ls ++ (if null tail then [] else [tail])).
+Print Assumptions streaming_unlines.
+
+Example streaming_nontrivial :
+  sl_run (sl_new [10; 97; 13; 10; 97; 10; 98]) [0; 1; 0; 0; 4; 0; 0; 0] =
+    [(1, Some [], false); (2, Some [], false); (1, Some [97], false); (1, Some [97], false); (2, Some [97], false);
+     (1, Some [98], false); (0, None, true); (0, None, true)].
+Proof. vm_compute. reflexivity. Qed.
+
+(* ======================= extension: SortableStrVec::binary_search, ZoSortedStrVec ======================= *)
+From ZV.C20 Require Import ModelSearch ModelZo ProofsSearch ProofsZo ProofsZoAccept ModelSsv ProofsSsv.
+Open Scope N_scope.
+
+(* SortableStrVec::binary_search (small path and block path: binary search over the block starts, then the scan of one block)
+   on every sorted enumeration with duplicates and empty strings, every block size >= 1: Ok(i) points at the needle, Err(i) is the
+   insertion point *)
+Theorem ssv_binary_search_spec :
+  forall l t bs, sorted_strs l -> (1 <= bs)%nat ->
+    match ssv_binary_search l t bs with
+    | Found m => (m < length l)%nat /\ lex (nth_str l m) t = Eq
+    | NotFound k => (k <= length l)%nat /\ (forall i, (i < k)%nat -> lex (nth_str l i) t = Lt) /\
+                    (forall i, (k <= i)%nat -> (i < length l)%nat -> lex (nth_str l i) t = Gt)
+    end.
+Proof. exact (fun l t bs Hs Hb => ssv_binary_search_ok l t bs Hs Hb). Qed.
+Check ssv_binary_search_spec :
+  forall l t bs, sorted_strs l -> (1 <= bs)%nat ->
+    match ssv_binary_search l t bs with
+    | Found m => (m < length l)%nat /\ lex (nth_str l m) t = Eq
+    | NotFound k => (k <= length l)%nat /\ (forall i, (i < k)%nat -> lex (nth_str l i) t = Lt) /\
+                    (forall i, (k <= i)%nat -> (i < length l)%nat -> lex (nth_str l i) t = Gt)
+    end.
+Print Assumptions ssv_binary_search_spec.
+
+(* ZoSortedStrVec over the NUL-terminated data + boundary bits: get reads back every string of any list without NUL bytes (empty
+   strings and duplicates included), iter() enumerates the list; on sorted lists binary_search finds exactly, lower_bound is the
+   first string >= the needle, range(lo, hi) is the segment between the two lower bounds (all duplicates) *)
+Theorem zo_spec :
+  forall ss, Forall (no_byte 0) ss ->
+    (forall i, zo_get (zo_build ss) i = nth_error ss i) /\
+    zo_iter (zo_build ss) = ss /\
+    (sorted_strs ss -> forall t,
+       match zo_binary_search (zo_build ss) t with
+       | Found m => (m < length ss)%nat /\ lex (nth_str ss m) t = Eq
+       | NotFound k => (k <= length ss)%nat /\ (forall i, (i < k)%nat -> lex (nth_str ss i) t = Lt) /\
+                       (forall i, (k <= i)%nat -> (i < length ss)%nat -> lex (nth_str ss i) t = Gt)
+       end) /\
+    (sorted_strs ss -> forall t,
+       let k := zo_lower_bound (zo_build ss) t in
+       (k <= length ss)%nat /\ (forall i, (i < k)%nat -> lex (nth_str ss i) t = Lt) /\
+       (forall i, (k <= i)%nat -> (i < length ss)%nat -> lex (nth_str ss i) t <> Lt)) /\
+    (sorted_strs ss -> forall lo hi,
+       let a := zo_lower_bound (zo_build ss) lo in
+       let b := zo_lower_bound (zo_build ss) hi in
+       zo_range (zo_build ss) lo hi = firstn (b - a) (skipn a ss)).
+Proof. exact zo_spec_proof. Qed.
+Check zo_spec :
+  forall ss, Forall (no_byte 0) ss ->
+    (forall i, zo_get (zo_build ss) i = nth_error ss i) /\
+    zo_iter (zo_build ss) = ss /\
+    (sorted_strs ss -> forall t,
+       match zo_binary_search (zo_build ss) t with
+       | Found m => (m < length ss)%nat /\ lex (nth_str ss m) t = Eq
+       | NotFound k => (k <= length ss)%nat /\ (forall i, (i < k)%nat -> lex (nth_str ss i) t = Lt) /\
+                       (forall i, (k <= i)%nat -> (i < length ss)%nat -> lex (nth_str ss i) t = Gt)
+       end) /\
+    (sorted_strs ss -> forall t,
+       let k := zo_lower_bound (zo_build ss) t in
+       (k <= length ss)%nat /\ (forall i, (i < k)%nat -> lex (nth_str ss i) t = Lt) /\
+       (forall i, (k <= i)%nat -> (i < length ss)%nat -> lex (nth_str ss i) t <> Lt)) /\
+    (sorted_strs ss -> forall lo hi,
+       let a := zo_lower_bound (zo_build ss) lo in
+       let b := zo_lower_bound (zo_build ss) hi in
+       zo_range (zo_build ss) lo hi = firstn (b - a) (skipn a ss)).
+Print Assumptions zo_spec.
+
+(* from_sorted_strings accepts exactly the sorted lists without NUL bytes (the empty list included) and refuses all others *)
+Theorem zo_accepts :
+  forall ss,
+    (zo_from_sorted ss = Some (zo_build ss) <-> (Forall (no_byte 0) ss /\ sorted_strs ss)) /\
+    (zo_from_sorted ss = None <-> ~ (Forall (no_byte 0) ss /\ sorted_strs ss)).
+Proof. exact zo_accepts_proof. Qed.
+Check zo_accepts :
+  forall ss,
+    (zo_from_sorted ss = Some (zo_build ss) <-> (Forall (no_byte 0) ss /\ sorted_strs ss)) /\
+    (zo_from_sorted ss = None <-> ~ (Forall (no_byte 0) ss /\ sorted_strs ss)).
+Print Assumptions zo_accepts.
+
+(* SortableStrVec storage: for every list of strings that fits the field widths (each at most 2^20-1 bytes, 2^40-1 in total) all
+   pushes succeed and get(i) reads back the i-th pushed string through the packed 64-bit entry (offset | length << 40 | seq << 60);
+   get beyond the end is None *)
+Theorem ssv_push_get :
+  forall ss, fits 0 ss ->
+    exists v, ssv_push_all ssv_new ss = Some v /\
+      sv_arena v = concat ss /\ nlen (sv_entries v) = nlen ss /\
+      forall i, ssv_get v i = nth_error ss (N.to_nat i).
+Proof. exact ssv_push_get_proof. Qed.
+Check ssv_push_get :
+  forall ss, fits 0 ss ->
+    exists v, ssv_push_all ssv_new ss = Some v /\
+      sv_arena v = concat ss /\ nlen (sv_entries v) = nlen ss /\
+      forall i, ssv_get v i = nth_error ss (N.to_nat i).
+Print Assumptions ssv_push_get.
+
+(* a string longer than the 20-bit length field is refused (it would read back truncated) *)
+Theorem ssv_push_refuses :
+  forall v s, MAX_LENGTH < nlen s -> ssv_push v s = None.
+Proof. exact ssv_push_refuses_proof. Qed.
+Check ssv_push_refuses :
+  forall v s, MAX_LENGTH < nlen s -> ssv_push v s = None.
+Print Assumptions ssv_push_refuses.
+
+Example sorted_containers_nontrivial :
+  sorted_strs demo_strs /\ Forall (no_byte 0) demo_strs /\ fits 0 demo_strs /\
+  ssv_binary_search demo_strs [97; 98] 2 = Found 4%nat /\ ssv_binary_search demo_strs [97; 97] 2 = NotFound 4%nat /\
+  ssv_binary_search demo_strs [122] 3 = NotFound 9%nat /\ ssv_binary_search demo_strs [] 1 = Found 1%nat /\
+  ssv_binary_search demo_strs [98] 256 = Found 7%nat /\
+  zo_range (zo_build demo_strs) [97] [98] = [[97]; [97]; [97; 98]] /\ zo_get (zo_build demo_strs) 1 = Some [] /\
+  zo_iter (zo_build demo_strs) = demo_strs /\
+  zo_from_sorted [[98]; [97]] = None /\ zo_from_sorted [[97; 0; 98]] = None.
+Proof.
+  split; [exact demo_sorted|]. split; [repeat constructor|].
+  split; [split; [repeat constructor; vm_compute; discriminate|vm_compute; discriminate]|].
+  vm_compute. repeat split; reflexivity.
+Qed.
+
+(* ======================= extension: the chunked comparison kernel of the release-mode sort ======================= *)
+From ZV.C20 Require Import ModelCmp ProofsCmp.
+Open Scope N_scope.
+
+(* SortableStrVec::fast_lexicographic_cmp (8-byte chunks of the common length compared as byte arrays, the remaining bytes one by
+   one, then the lengths) is the byte-wise lexicographic order by unsigned byte, for all lengths *)
+Theorem fast_lex_cmp_is_lex :
+  forall a b, fast_lex_cmp a b = lex a b.
+Proof. exact fast_lex_cmp_is_lex_proof. Qed.
+Check fast_lex_cmp_is_lex :
+  forall a b, fast_lex_cmp a b = lex a b.
+Print Assumptions fast_lex_cmp_is_lex.
+
+Example cmp_kernel_nontrivial :
+  fast_lex_cmp [1; 2; 3; 4; 5; 6; 7; 8; 9; 200] [1; 2; 3; 4; 5; 6; 7; 8; 9; 100; 0] = Gt /\
+  fast_lex_cmp [1; 2; 3; 4; 5; 6; 7; 200; 0] [1; 2; 3; 4; 5; 6; 7; 8; 255] = Gt /\
+  fast_lex_cmp [1; 2; 3; 4; 5; 6; 7; 8] [1; 2; 3; 4; 5; 6; 7; 8; 0] = Lt /\ fast_lex_cmp [] [] = Eq.
+Proof. vm_compute. repeat split; reflexivity. Qed.
+
+(* ======================= extension: the pieces between word boundaries ======================= *)
+From ZV.C20 Require Import ProofsPieces.
+Open Scope N_scope.
+
+(* cutting a text at the positions find_word_boundaries returns: the pieces concatenate to the text, each is non-empty and of one
+   class (word bytes / other bytes), neighbouring pieces are of different classes - every piece is a maximal run *)
+Theorem boundaries_cut :
+  forall s, s <> [] ->
+    let ps := cut s (find_word_boundaries s) in
+    concat ps = s /\ Forall good ps /\ alt ps.
+Proof. exact boundaries_cut_proof. Qed.
+Check boundaries_cut :
+  forall s, s <> [] ->
+    let ps := cut s (find_word_boundaries s) in
+    concat ps = s /\ Forall good ps /\ alt ps.
+Print Assumptions boundaries_cut.
+
+Example pieces_nontrivial :
+  cut [104; 105; 32; 32; 120; 95; 49; 33] (find_word_boundaries [104; 105; 32; 32; 120; 95; 49; 33]) =
+  [[104; 105]; [32; 32]; [120; 95; 49]; [33]].
+Proof. vm_compute. reflexivity. Qed.
